@@ -52,12 +52,13 @@ LEVEL = {'text': 'Machine-checked refinement of a state machine (caches, object 
                  '(offset-exact lookups name a unit/entry start). What the bytes decode to is abstract (parse '
                  'functions of the file description); decoding itself is the subject of C04/C05/C06.'}
 RULE = ('cases: (file, history, last operation); bfs = every abstract state reachable within the depth bound x every '
-        'operation of the alphabet on 3 synthesized files (eight alphabets: DWARF, ELF, the unit map with lookups that raise between successful ones, listing the children of an inner entry and then of an ancestor two levels up '
+        'operation of the alphabet on 3 synthesized files (nine alphabets: DWARF, ELF, entries of a DWARF 2 and a DWARF 4 unit that share one abbreviation table in '
+        'every order (file D), the unit map with lookups that raise between successful ones, listing the children of an inner entry and then of an ancestor two levels up '
         '(three levels deeper), walking the children of an offset-fetched entry then asking for the parent of '
         'the entry after its subtree (two levels deeper), call-frame decoding in every order '
         '(two levels deeper), interleaved iterators over the children of one entry (five levels deeper), and a type-unit generator '
         'interleaved with lookups by signature (two levels deeper)); pair = every interleaving up to depth 3 of '
-        'queries on TWO files opened in one process (file A and its big-endian twin), each history in a process of '
+        'queries on TWO files opened in one process (file A and its big-endian twin, file B and its little-endian twin), each history in a process of '
         'its own, each answer compared with the stateless answer for its file, rnd = random histories on seed binaries with a Disturb '
         'after every call (minimised when failing). distinct = hash(kind, file, history); non-trivial = history '
         'of length >= 2 or an operation that fills a cache')
@@ -71,7 +72,7 @@ NSLOTS = 2
 LOCAL_REF_FORMS = ('DW_FORM_ref1', 'DW_FORM_ref2', 'DW_FORM_ref4', 'DW_FORM_ref8', 'DW_FORM_ref', 'DW_FORM_ref_udata')
 OTHER_REF_FORMS = ('DW_FORM_ref_sig8', 'DW_FORM_ref_sup4', 'DW_FORM_ref_sup8', 'DW_FORM_GNU_ref_alt')
 DWARF_OPS = {'CUAt', 'CUContaining', 'TopDIE', 'DIEAt', 'DIEGlobal', 'Parent', 'FollowRef', 'LineProg', 'LineEntries',
-             'CFI', 'CFIDecoded', 'TUBySig', 'NewIterTUs', 'RefetchDwarf', 'CUAtFailing', 'NewIterCUs', 'NewIterDIEs', 'NewIterChildren', 'NewIterSiblings'}
+             'CFI', 'CFIDecoded', 'TUBySig', 'NewIterTUs', 'RefetchDwarf', 'CUAtFailing', 'DIEAtOutside', 'NewIterCUs', 'NewIterDIEs', 'NewIterChildren', 'NewIterSiblings'}
 
 
 # ------------------------------------------------------------------ serialisation of observed values
@@ -251,6 +252,8 @@ class Opened:
         if k == 'Disturb':
             self.stream(op[1]).seek(op[2])
             return 'done'
+        if k == 'DIEAtOutside':
+            return self.a_die(self.the_die(op[1], op[2]))
         if k == 'CUAtFailing':
             return self.a_unit(dw.get_CU_at(op[1]))
         if k == 'CUAt':
@@ -886,7 +889,7 @@ def tabulate(meta, fresh_each=True, die_budget=4000):
 _FILES = {}
 
 
-SYNTH = ('A', 'B', 'C', 'Abe')
+SYNTH = ('A', 'B', 'C', 'Abe', 'Ble', 'D')
 
 
 def load_file(name):
@@ -908,7 +911,8 @@ def _load_file(name):
     from tools.lib.framework import REPO
     if name in SYNTH:
         f = {'A': c10_build.file_a, 'B': c10_build.file_b, 'C': c10_build.file_c,
-             'Abe': lambda: c10_build.file_a(False)}[name]()
+             'Abe': lambda: c10_build.file_a(False), 'Ble': lambda: c10_build.file_b(True),
+             'D': c10_build.file_d}[name]()
         meta = dict(name=name, image=f['image'], labels=f['labels'], synthesized=True, string_offsets=[0, 1, 2])
     else:
         with open(os.path.join(str(REPO), 'test', name), 'rb') as fh:
@@ -991,6 +995,12 @@ def alphabet(meta, machine):
         sigs = meta['tu_sigs']
         ops += [['NewIterTUs', 0], ['Next', 0], ['TUBySig', sigs[0]], ['TUBySig', sigs[-1]], ['TUBySig', 0x1234],
                 ['Disturb', 12, 3], ['CUAt', meta['units'][-1]['off']]]
+    elif machine == 'DV':
+        # units of different DWARF versions sharing one abbreviation table: entries of both, in every order
+        for u in meta['units']:
+            ents = [e for e in entries_of(u['tree']) if not e[2]]
+            ops += [['TopDIE', u['off']]] + [['DIEAt', u['off'], e[0]] for e in ents[1:4]]
+            ops += [['FollowRef', u['off'], e[0], 0] for e in ents[1:4] if any(r[0] in (0, 1) for r in e[1][4])][:1]
     elif machine == 'DU':
         # the unit map: lookups that raise (no unit starts at the offset) between successful lookups by offset, by
         # contained address and by iteration, from every warm-up state (nothing, a lower, a higher unit cached)
@@ -1003,6 +1013,11 @@ def alphabet(meta, machine):
         ops += [['CUAtFailing'] + f for f in pick]
         if not pick:
             ops = []
+        else:
+            # entry lookups inside a unit header and at the end of the unit: DWARFError, then queries on that unit
+            ul = meta['units'][-1]
+            ops += [['DIEAtOutside', ul['off'], ul['off'] + 6], ['DIEAtOutside', us[0], us[0] + meta['units'][0]['size']],
+                    ['TopDIE', ul['off']]]
     elif machine == 'DR':
         # a relocatable object: get_dwarf_info() again on the ELFFile between queries on the DWARFInfo already held
         us = meta['units']
@@ -1208,7 +1223,7 @@ def _hkey(name, history):
     return (name, repr(history))
 
 
-PAIRS = [('A', 'Abe')]
+PAIRS = [('A', 'Abe'), ('B', 'Ble')]
 _PAIR_CACHE = {}
 RELOCATABLE_FILES = ['testfiles_for_unittests/arm_exidx_test.o']      # REL relocations against symbols with values
 
@@ -1261,6 +1276,9 @@ def random_op(rng, meta):
         choices += [['RefetchDwarf']] * 2
     if meta['has_dwarf'] and meta.get('cu_fail'):
         choices += [['CUAtFailing'] + rng.choice(meta['cu_fail']) for _ in range(2)]
+        u = rng.choice(meta['units'])
+        choices += [['DIEAtOutside', u['off'], rng.randrange(u['off'], u['die_off'])],
+                    ['DIEAtOutside', u['off'], u['off'] + u['size'] + rng.randrange(3)]]
     if meta['num_sections']:
         n = rng.randrange(meta['num_sections'])
         choices += [['ESectionTyped', n, meta['desc'][8][n][5]],
@@ -1341,21 +1359,21 @@ def gen(ctx):
             continue
         sym = [(0, op) for op in pair_alphabet(mx)] + [(1, op) for op in pair_alphabet(my)]
         level = [[]]
-        for _ in range(ctx.scale(3, 4)):
+        for _ in range(ctx.scale(2, 4)):
             level = [h + [s] for h in level for s in sym]
             # histories on ONE of the two objects are what the single-file exploration covers: beyond length 1 only
             # histories that touch both objects are run
             cases += [('pair', [nx + '+' + ny, [[w, op] for w, op in h]]) for h in level
                       if len(h) == 1 or len(set(w for w, _ in h)) == 2]
-    for name in ('A', 'B', 'C'):
+    for name in ('A', 'B', 'C', 'D'):
         meta = load_file(name)
         if meta.get('broken'):
             cases.append(('tab', [name, []]))
             continue
-        for machine in ('D', 'E', 'DF', 'DN', 'DT', 'DQ', 'DA', 'DU'):
+        for machine in (('DV', 'DU') if name == 'D' else ('D', 'E', 'DF', 'DN', 'DT', 'DQ', 'DA', 'DU')):
             if machine == 'DT' and len(meta.get('tu_sigs', [])) < 2:
                 continue
-            d = {'DF': depth + 2, 'DN': depth + 5, 'DT': depth + 2, 'DQ': depth + 2, 'DA': depth + 3}.get(machine, depth)
+            d = {'DF': depth + 2, 'DN': depth + 5, 'DT': depth + 2, 'DQ': depth + 2, 'DA': depth + 3, 'DV': depth + 1}.get(machine, depth)
             if not alphabet(meta, machine):
                 continue
             edges, nstates, closed = explore(meta, machine, d)
